@@ -474,6 +474,23 @@ theorem Sat.toEnd {α} {p : Bytes → Outcome α × Nat} {P : α → Prop}
   | err => simp only; exact ⟨by omega, by omega, by omega⟩
   | panic s => exact absurd ho (hp _ s)
 
+/-- a pure parser that consumes a prefix of what is left: one iteration per octet consumed -/
+theorem Sat.parsePrefix {α} {p : Bytes → Outcome α × Nat} {P : α → Prop}
+    (hp : ∀ d s, (p d).1 ≠ .panic s) (hP : ∀ d a, (p d).1 = .ok a → P a) :
+    Sat (Rd.parsePrefix p) 1 0 0 P := by
+  intro buf st hst
+  unfold SatAt Rd.parsePrefix
+  simp only
+  have hu : min (p (buf.drop st.pos)).2 (buf.drop st.pos).length ≤ buf.length - st.pos := by
+    have := Nat.min_le_right (p (buf.drop st.pos)).2 (buf.drop st.pos).length
+    simp only [List.length_drop] at this ⊢
+    exact this
+  generalize min (p (buf.drop st.pos)).2 (buf.drop st.pos).length = used at hu
+  cases ho : (p (buf.drop st.pos)).1 with
+  | ok a => simp only; exact ⟨by omega, by omega, by omega, hP _ a ho⟩
+  | err => simp only; exact ⟨by omega, by omega, by omega⟩
+  | panic s => exact absurd ho (hp _ s)
+
 theorem Sat.liftK {α} {r : Rd α} {K c m : Nat} {P : α → Prop} (h : Sat r 0 c m P) : Sat r K c m P :=
   h.weaken (Nat.zero_le _) (Nat.le_refl _) (Nat.le_refl _) (fun _ h => h)
 
@@ -534,6 +551,7 @@ def rdataNames : RData → List Name
   | .nsec n _ => [n]
   | .tsig n _ _ _ _ _ _ => [n]
   | .naptr _ _ _ _ _ n => [n]
+  | .svcb _ n _ => [n]
   | _ => []
 
 def recordNames (r : Record) : List Name := r.name :: rdataNames r.rdata
@@ -682,6 +700,44 @@ theorem readNsec3Head_sat : Sat readNsec3Head 1 0 0 (fun _ => True) := by
             (Nat.le_refl _) (by omega) (by omega) (fun _ h => h))).weaken
         (Nat.le_refl _) (by omega) (by omega) (fun _ h => h))
   sat_done h
+
+theorem map_ne_panic {α β} {o : Outcome α} {f : α → β} (h : ∀ s, o ≠ .panic s) (s : String) :
+    o.map f ≠ .panic s := by
+  cases o with
+  | ok a => simp [Outcome.map]
+  | err => simp [Outcome.map]
+  | panic s' => exact absurd rfl (h s')
+
+theorem svcKeys_ne_panic (d : Bytes) : ∀ s, svcKeys d ≠ .panic s := by
+  fun_induction svcKeys d
+  · simp
+  · simp
+  · rename_i ih; exact map_ne_panic ih
+
+theorem svcAlpns_ne_panic (d : Bytes) : ∀ s, svcAlpns d ≠ .panic s := by
+  fun_induction svcAlpns d
+  · simp
+  · rename_i ih; exact map_ne_panic ih
+  · simp
+  · simp
+
+theorem svcValue_ne_panic (key : Nat) (d : Bytes) (s : String) : svcValue key d ≠ .panic s := by
+  unfold svcValue
+  have h1 := svcKeys_ne_panic d
+  have h2 := svcAlpns_ne_panic d
+  repeat' split
+  all_goals first
+    | (intro h; cases h; done)
+    | (rename_i hh; first | exact absurd hh (h1 _) | exact absurd hh (h2 _))
+
+theorem svcParams_ne_panic (d : Bytes) (last : Option Nat) (acc : List (Nat × SvcVal)) :
+    ∀ s, (svcParams d last acc).1 ≠ .panic s := by
+  fun_induction svcParams d last acc
+  all_goals first
+    | (simp; done)
+    | (rename_i hx; exact fun s => absurd hx (svcValue_ne_panic _ _ _))
+    | (rename_i r ih; exact ih)
+    | skip
 
 theorem readTag_sat : ∀ (n : Nat) (acc : Bytes), Sat (readTag n acc) 0 0 0 (fun _ => True) := by
   intro n
@@ -871,6 +927,13 @@ theorem readRDataBody_sat (opq : Nat → Rd Bytes) (hq : OpqOK opq) (t : Nat) :
           (Sat.pure (P := RP t) (RData.naptr order pref flags services regexp n)
             ⟨by intro x hx; simp [rdataNames] at hx; exact hx ▸ hn, trivial⟩).liftK).weaken
           (Nat.le_refl _) (by omega) (by omega) (fun _ h => h))
+    sat_done h
+  refine Sat.ite _ (fun _ => ?_) (fun _ => ?_)
+  · have h := Sat.bind (K := 1) Sat.readU16.liftK fun prio _ => Sat.bind Sat.name.liftK fun target hn =>
+      Sat.bind (Sat.parsePrefix (p := fun d => svcParams d none []) (P := fun _ => True)
+        (fun d s => svcParams_ne_panic d none [] s) (fun _ _ _ => trivial)) fun ps _ =>
+      (Sat.pure (P := RP t) (RData.svcb prio target ps)
+        ⟨by intro x hx; simp [rdataNames] at hx; exact hx ▸ hn, trivial⟩).liftK
     sat_done h
   refine Sat.ite _ (fun hd => ?_) (fun _ => ?_)
   · exact readDnssec_sat t hd hn250
@@ -1168,9 +1231,9 @@ theorem readRequest_sat (opq : Nat → Rd Bytes) (hq : OpqOK opq) :
 
 /-! ## the property theorems about records, RDATA, messages and requests
 
-`opq` stands for the RDATA codecs that have no model yet (`Wire.unmodelled`); the theorems hold for
-every `opq` that itself honours the contract (`OpqOK`).  For record types outside `Wire.unmodelled`
-the parameter is never consulted (`readRData_modelled_indep`). -/
+`opq` is the parameter that stands for RDATA codecs without a model.  `Wire.unmodelled` is now
+empty, so the parameter is never consulted (`readRData_indep`) and the theorems hold for every
+`opq`, without hypothesis. -/
 
 theorem run_of_sat {α} {r : Rd α} {K c m : Nat} {P : α → Prop} (h : Sat r K c m P)
     (buf : Bytes) (pos : Nat) (hpos : pos ≤ buf.length) :
@@ -1199,78 +1262,104 @@ theorem run_of_sat {α} {r : Rd α} {K c m : Nat} {P : α → Prop} (h : Sat r K
     exact ⟨by simp, by simp, by omega⟩
   | panic s => exact absurd h0 id
 
-/-- **`RData::read` never panics**, for every record type code, buffer and start index. -/
-theorem readRData_no_panic (opq : Nat → Rd Bytes) (hq : OpqOK opq) (t : Nat) (buf : Bytes) (pos : Nat)
-    (hpos : pos ≤ buf.length) (s : String) : Rd.run (readRData opq t) buf pos ≠ .panic s :=
-  (run_of_sat (readRData_sat opq hq t) buf pos hpos).1 s
+theorem opqFail_ok : OpqOK (fun _ => Rd.fail) := fun _ =>
+  Sat.fail.weaken (Nat.zero_le _) (Nat.zero_le _) (Nat.le_refl _) (fun _ h => h)
 
-/-- for a modelled record type the result does not depend on the parameter at all, so
-`readRData_no_panic` is unconditional there -/
+/-- for a modelled record type the result does not depend on the parameter -/
 theorem readRData_modelled_indep (opq opq' : Nat → Rd Bytes) (t : Nat) (ht : unmodelled.contains t = false) :
     readRData opq t = readRData opq' t := by
   unfold readRData readRDataBody
   simp only [ht]
   rfl
 
-theorem opqFail_ok : OpqOK (fun _ => Rd.fail) := fun _ =>
-  Sat.fail.weaken (Nat.zero_le _) (Nat.zero_le _) (Nat.le_refl _) (fun _ h => h)
+/-- every record type is modelled: the parameter is dead -/
+theorem readRData_indep (opq opq' : Nat → Rd Bytes) : readRData opq = readRData opq' :=
+  funext fun t => readRData_modelled_indep opq opq' t (by simp [unmodelled])
 
-/-- **`RData::read` of every modelled type never panics** (no hypothesis on the unmodelled codecs). -/
-theorem readRData_no_panic_modelled (opq : Nat → Rd Bytes) (t : Nat) (ht : unmodelled.contains t = false)
-    (buf : Bytes) (pos : Nat) (hpos : pos ≤ buf.length) (s : String) :
-    Rd.run (readRData opq t) buf pos ≠ .panic s := by
-  rw [readRData_modelled_indep opq (fun _ => Rd.fail) t ht]
-  exact readRData_no_panic _ opqFail_ok t buf pos hpos s
+theorem readRecord_indep (opq opq' : Nat → Rd Bytes) : readRecord opq = readRecord opq' := by
+  unfold readRecord; rw [readRData_indep opq opq']
 
-/-- **`Record::read` never panics** and a decoded record lies inside the buffer. -/
-theorem readRecord_no_panic (opq : Nat → Rd Bytes) (hq : OpqOK opq) (buf : Bytes) (pos : Nat)
-    (hpos : pos ≤ buf.length) (s : String) : Rd.run (readRecord opq) buf pos ≠ .panic s :=
-  (run_of_sat (readRecord_sat opq hq) buf pos hpos).1 s
+theorem readRecords_indep (opq opq' : Nat → Rd Bytes) (isAdd : Bool) (op : Nat) :
+    ∀ (count : Nat) (acc : RecAcc), readRecords opq isAdd op count acc = readRecords opq' isAdd op count acc := by
+  intro count
+  induction count with
+  | zero => intro acc; rw [readRecords, readRecords]
+  | succ n ih =>
+    intro ⟨recs, edns, sig⟩
+    rw [readRecords, readRecords, readRecord_indep opq opq']
+    simp only [ih]
+
+theorem readMessage_indep (opq opq' : Nat → Rd Bytes) : readMessage opq = readMessage opq' := by
+  unfold readMessage
+  simp only [readRecords_indep opq opq']
+
+theorem readRequest_indep (opq opq' : Nat → Rd Bytes) : readRequest opq = readRequest opq' := by
+  unfold readRequest
+  simp only [readRecords_indep opq opq']
+
+/-- **`RData::read` never panics**, for every record type code, buffer and start index. -/
+theorem readRData_no_panic (opq : Nat → Rd Bytes) (t : Nat) (buf : Bytes) (pos : Nat)
+    (hpos : pos ≤ buf.length) (s : String) : Rd.run (readRData opq t) buf pos ≠ .panic s := by
+  rw [readRData_indep opq (fun _ => Rd.fail)]
+  exact (run_of_sat (readRData_sat _ opqFail_ok t) buf pos hpos).1 s
+
+/-- **`Record::read` never panics.** -/
+theorem readRecord_no_panic (opq : Nat → Rd Bytes) (buf : Bytes) (pos : Nat)
+    (hpos : pos ≤ buf.length) (s : String) : Rd.run (readRecord opq) buf pos ≠ .panic s := by
+  rw [readRecord_indep opq (fun _ => Rd.fail)]
+  exact (run_of_sat (readRecord_sat _ opqFail_ok) buf pos hpos).1 s
 
 /-- **`Message::from_vec` never panics**, for every byte string. -/
-theorem readMessage_no_panic (opq : Nat → Rd Bytes) (hq : OpqOK opq) (buf : Bytes) (s : String) :
-    Rd.run (readMessage opq) buf 0 ≠ .panic s :=
-  (run_of_sat (readMessage_sat opq hq) buf 0 (Nat.zero_le _)).1 s
+theorem readMessage_no_panic (opq : Nat → Rd Bytes) (buf : Bytes) (s : String) :
+    Rd.run (readMessage opq) buf 0 ≠ .panic s := by
+  rw [readMessage_indep opq (fun _ => Rd.fail)]
+  exact (run_of_sat (readMessage_sat _ opqFail_ok) buf 0 (Nat.zero_le _)).1 s
 
 /-- **The server's `Request::from_bytes` never panics**, for every byte string. -/
-theorem readRequest_no_panic (opq : Nat → Rd Bytes) (hq : OpqOK opq) (buf : Bytes) (s : String) :
-    Rd.run (readRequest opq) buf 0 ≠ .panic s :=
-  (run_of_sat (readRequest_sat opq hq) buf 0 (Nat.zero_le _)).1 s
+theorem readRequest_no_panic (opq : Nat → Rd Bytes) (buf : Bytes) (s : String) :
+    Rd.run (readRequest opq) buf 0 ≠ .panic s := by
+  rw [readRequest_indep opq (fun _ => Rd.fail)]
+  exact (run_of_sat (readRequest_sat _ opqFail_ok) buf 0 (Nat.zero_le _)).1 s
 
 /-- **No decoded name exceeds 255 octets and no label 63**: every name of a decoded message
-(question names, owner names, names inside modelled RDATA, the owner of the signature record). -/
-theorem decoded_names_bounded (opq : Nat → Rd Bytes) (hq : OpqOK opq) (buf : Bytes) (m : Message) (p : Nat)
+(question names, owner names, every name inside RDATA, the owner and algorithm of the TSIG record). -/
+theorem decoded_names_bounded (opq : Nat → Rd Bytes) (buf : Bytes) (m : Message) (p : Nat)
     (h : Rd.run (readMessage opq) buf 0 = .ok (m, p)) :
-    ∀ n ∈ messageNames m, n.encodedLen ≤ 255 ∧ ∀ l ∈ n.labels, 1 ≤ l.length ∧ l.length ≤ 63 :=
-  ((run_of_sat (readMessage_sat opq hq) buf 0 (Nat.zero_le _)).2.1 m p h).1
+    ∀ n ∈ messageNames m, n.encodedLen ≤ 255 ∧ ∀ l ∈ n.labels, 1 ≤ l.length ∧ l.length ≤ 63 := by
+  rw [readMessage_indep opq (fun _ => Rd.fail)] at h
+  exact ((run_of_sat (readMessage_sat _ opqFail_ok) buf 0 (Nat.zero_le _)).2.1 m p h).1
 
 /-- the same for a decoded server request -/
-theorem decoded_request_names_bounded (opq : Nat → Rd Bytes) (hq : OpqOK opq) (buf : Bytes) (m : Request)
+theorem decoded_request_names_bounded (opq : Nat → Rd Bytes) (buf : Bytes) (m : Request)
     (p : Nat) (h : Rd.run (readRequest opq) buf 0 = .ok (m, p)) :
-    ∀ n ∈ requestNames m, n.encodedLen ≤ 255 ∧ ∀ l ∈ n.labels, 1 ≤ l.length ∧ l.length ≤ 63 :=
-  ((run_of_sat (readRequest_sat opq hq) buf 0 (Nat.zero_le _)).2.1 m p h).1
+    ∀ n ∈ requestNames m, n.encodedLen ≤ 255 ∧ ∀ l ∈ n.labels, 1 ≤ l.length ∧ l.length ≤ 63 := by
+  rw [readRequest_indep opq (fun _ => Rd.fail)] at h
+  exact ((run_of_sat (readRequest_sat _ opqFail_ok) buf 0 (Nat.zero_le _)).2.1 m p h).1
 
-/-- and for a single record -/
-theorem decoded_record_names_bounded (opq : Nat → Rd Bytes) (hq : OpqOK opq) (buf : Bytes) (pos : Nat)
+/-- and for a single record, which moreover lies inside the buffer and is at least one octet long -/
+theorem decoded_record_names_bounded (opq : Nat → Rd Bytes) (buf : Bytes) (pos : Nat)
     (hpos : pos ≤ buf.length) (r : Record) (p : Nat) (h : Rd.run (readRecord opq) buf pos = .ok (r, p)) :
     (∀ n ∈ recordNames r, n.encodedLen ≤ 255 ∧ ∀ l ∈ n.labels, 1 ≤ l.length ∧ l.length ≤ 63) ∧
       pos < p ∧ p ≤ buf.length := by
-  have := (run_of_sat (readRecord_sat opq hq) buf pos hpos).2.1 r p h
+  rw [readRecord_indep opq (fun _ => Rd.fail)] at h
+  have := (run_of_sat (readRecord_sat _ opqFail_ok) buf pos hpos).2.1 r p h
   exact ⟨this.1.1, by omega, this.2.2⟩
 
 /-- **Decoding takes time proportional to the input**: the number of loop iterations (section
-loops, name label/pointer loops, TXT / OPT loops; whatever the count fields claim) is at most
-`49538 · |b| + 165124`.  (A name costs at most 16 512 iterations because pointer targets are
-14-bit and strictly decreasing; a record holds at most three names.) -/
-theorem readMessage_steps_le (opq : Nat → Rd Bytes) (hq : OpqOK opq) (buf : Bytes) :
-    Rd.cost (readMessage opq) buf 0 ≤ 49538 * buf.length + 165124 :=
-  (run_of_sat (readMessage_sat opq hq) buf 0 (Nat.zero_le _)).2.2
+loops, name label/pointer loops, TXT / OPT / type-bitmap / SVCB-parameter loops; whatever the count
+fields claim) is at most `49538 · |b| + 165124`.  (A name costs at most 16 512 iterations because
+pointer targets are 14-bit and strictly decreasing; a record holds at most three names.) -/
+theorem readMessage_steps_le (opq : Nat → Rd Bytes) (buf : Bytes) :
+    Rd.cost (readMessage opq) buf 0 ≤ 49538 * buf.length + 165124 := by
+  rw [readMessage_indep opq (fun _ => Rd.fail)]
+  exact (run_of_sat (readMessage_sat _ opqFail_ok) buf 0 (Nat.zero_le _)).2.2
 
-theorem readRequest_steps_le (opq : Nat → Rd Bytes) (hq : OpqOK opq) (buf : Bytes) :
-    Rd.cost (readRequest opq) buf 0 ≤ 49538 * buf.length + 165123 :=
-  (run_of_sat (readRequest_sat opq hq) buf 0 (Nat.zero_le _)).2.2
+theorem readRequest_steps_le (opq : Nat → Rd Bytes) (buf : Bytes) :
+    Rd.cost (readRequest opq) buf 0 ≤ 49538 * buf.length + 165123 := by
+  rw [readRequest_indep opq (fun _ => Rd.fail)]
+  exact (run_of_sat (readRequest_sat _ opqFail_ok) buf 0 (Nat.zero_le _)).2.2
 
-/-! non-vacuity: the hypothesis on the unmodelled codecs is satisfiable; a header-only message decodes -/
+/-! non-vacuity: the contract of the (dead) parameter is satisfiable; a header-only message decodes -/
 example : OpqOK (fun _ => Rd.fail) := opqFail_ok
 example : (Rd.run (readMessage (fun _ => Rd.fail)) [0x12, 0x34, 1, 0, 0, 0, 0, 0, 0, 0, 0, 0] 0).isOk = true := by
   decide
